@@ -41,6 +41,10 @@ func (c *Ctx) runBackendWalk(r *Report, b backendSpec) {
 	}
 }
 
+const orderClause = "operand order (E12): wherever a value derived only from the left operand of a binary expression (.Left of a node that has both fields, or the first of the two operand parameters of a function that also takes the operator) and one derived only from the right operand are handed on together - two arguments of a call, two elements of a positional literal, the Left/Right fields of a keyed literal, two consecutive text emissions - the left-derived one comes first; the sites that mirror the operands on purpose (HLSL mul, OpMatrixTimesScalar / OpVectorTimesScalar with a scalar on the left) are counted and must stay mirrored"
+
+var orderFloors = map[string]int{"hlsl": 6, "msl": 7, "glsl": 25, "spirv": 15, "wgsl": 9, "ir": 5}
+
 func backendProp(b backendSpec, meaning string) propFunc {
 	return func(c *Ctx, r *Report) {
 		r.Clauses = append(r.Clauses,
@@ -53,6 +57,9 @@ func backendProp(b backendSpec, meaning string) propFunc {
 		c.runOperatorTokens(r, "opsel.tokens", b.Pkg, "UnaryOperator", textUnaryTokens, textUnaryCalls)
 		r.Clauses = append(r.Clauses, "math builtin names (E2): in the dispatcher over ir.MathFunction that selects the target builtin, the known "+b.Name+" builtins spelled in each arm are the builtin whose specified semantics equal the WGSL builtin's (reference table written from the language specifications), e.g. round -> rint / roundEven / round")
 		c.runMathNames(r, "mathsel.names", b.Name, b.Pkg, 30)
+		r.Clauses = append(r.Clauses, orderClause)
+		c.runOperandOrder(r, "order."+b.Name, inPkgs(b.Name))
+		r.floor("order."+b.Name, orderFloors[b.Name])
 		r.floor("mathsel."+b.Name, 45)
 		r.floor("optokens."+b.Pkg+".BinaryOperator", 18)
 		r.floor("optokens."+b.Pkg+".UnaryOperator", 3)
